@@ -183,6 +183,6 @@ pub fn run(run: &Run) {
     let subs = subs();
     run_regressions(run, &subs);
     run.enumerate("optable", optable_total(), &optable_key, &*find_sub(&subs, "optable").unwrap().f);
-    let n = run.tier.pick(300_000, 5_000_000);
+    let n = run.tier.pick(300_000, 20_000_000);
     run.random("random", n, 300, &*find_sub(&subs, "random").unwrap().f);
 }
